@@ -719,7 +719,7 @@ func writesToParam(f *chk.Fn, buf func(ast.Expr) bool) func(ast.Node) bool {
 }
 
 func c16Prefix(p *chk.Prog, r *chk.Report) {
-	x := r.Rule("PREFIX-AGREE", "E sibling", "in encodePrefixes, for every prefix (no skip): the length byte is byte(o) and the bytes written are pfx.IP.To4()[:bytesForBits(o)] for the same o = ones of pfx.Mask.Size(); bytesForBits(n) is ((n + 7) &^ 7) / 8", 2)
+	x := r.Rule("PREFIX-AGREE", "E sibling", "in encodePrefixes, for every prefix (no skip): the length byte is byte(o) and the bytes written are pfx.IP.To4()[:ceil(o/8)] for the same o = ones of pfx.Mask.Size(), ceil(o/8) spelt ((o + 7) &^ 7) / 8 (or (o+7)/8, (o+7)>>3)", 1)
 	f := need(x, p, natPkg, "", "encodePrefixes")
 	if f != nil {
 		g := f.Graph()
@@ -735,7 +735,17 @@ func c16Prefix(p *chk.Prog, r *chk.Report) {
 				return rhs != nil && idx == 0 && f.MatchWith("P.Mask.Size()", rhs, chk.H("P", pfx)) != nil
 			}
 			lenB := f.ContainsPat("B.WriteByte(byte(O))", chk.H("B", isParamIdx(f, 0)), chk.H("O", o))
-			body := f.ContainsPat("B.Write(P.IP.To4()[:bytesForBits(O)])", chk.H("B", isParamIdx(f, 0)), chk.H("P", pfx), chk.H("O", o))
+			// the number of whole bytes that hold o bits, in one of its spellings (the one-line helper that names it is
+			// expanded by the normalisation)
+			ceil8 := func(n ast.Node) bool {
+				for _, pat := range []string{"B.Write(P.IP.To4()[:((O+7)&^7)/8])", "B.Write(P.IP.To4()[:(O+7)/8])", "B.Write(P.IP.To4()[:(O+7)>>3])"} {
+					if f.ContainsPat(pat, chk.H("B", isParamIdx(f, 0)), chk.H("P", pfx), chk.H("O", o))(n) {
+						return true
+					}
+				}
+				return false
+			}
+			body := ceil8
 			ok = !loopSkipsWithout(g, rs, lenB, chk.NoGuard) && !loopSkipsWithout(g, rs, body, chk.NoGuard) && !loopHasBreak(g, rs)
 			// order: length byte first, and nothing else written in between
 			for _, s := range g.Find(lenB) {
@@ -758,7 +768,7 @@ func c16Prefix(p *chk.Prog, r *chk.Report) {
 			}
 			ok = ok && n == 2
 		}
-		x.Check("encodePrefixes:length-and-bytes-agree", f.Pos(), ok, "", "an NLRI entry is not {byte(o), pfx.IP.To4()[:bytesForBits(o)]} with the same prefix length o (the address bytes written are not the prefix's own)")
+		x.Check("encodePrefixes:length-and-bytes-agree", f.Pos(), ok, "", "an NLRI entry is not {byte(o), pfx.IP.To4()[:ceil(o/8)]} with the same prefix length o (the address bytes written are not the prefix's own)")
 	}
 	// bytes once appended are never modified in place, except by the length patches of LAYOUT-1
 	for _, name := range []string{"sendOpen", "sendUpdate", "sendWithdraw", "sendKeepalive", "encodePathAttrs", "encodePrefixes"} {
@@ -792,15 +802,6 @@ func c16Prefix(p *chk.Prog, r *chk.Report) {
 			}
 			return true
 		})
-	}
-	bf := need(x, p, natPkg, "", "bytesForBits")
-	if bf != nil {
-		ok := false
-		for _, rt := range bf.Graph().Returns() {
-			rr := retResults(rt)
-			ok = len(rr) == 1 && bf.MatchWith("((N + 7) &^ 7) / 8", rr[0], chk.H("N", isParamIdx(bf, 0))) != nil
-		}
-		x.Check("bytesForBits:ceil-div-8", bf.Pos(), ok, "", "bytesForBits is not ceil(n / 8)")
 	}
 }
 
